@@ -474,12 +474,12 @@ def fam_integro(item, res, viol, calls):
                 res["outcomes"].append(cfg)
 
 
-def _deeponet(din, od):
+def _deeponet(din, od, fvar="t"):
     from torchphysics.models.deeponet.branchnets import FCBranchNet
     from torchphysics.models.deeponet.trunknets import FCTrunkNet
     from torchphysics.models.deeponet.deeponet import DeepONet
     torch.manual_seed(9)
-    fs = FunctionSpace(tp.domains.Interval(Space({"t": 1}), 0, 1), Space({"e": 1}))
+    fs = FunctionSpace(tp.domains.Interval(Space({fvar: 1}), 0, 1), Space({"e": 1}))
     sampler = tp.samplers.GridSampler(fs.input_domain, 4).make_static()
     trunk = FCTrunkNet(Space({"x": din}), hidden=(3,))
     branch = FCBranchNet(fs, discretization_sampler=sampler, hidden=(3,))
@@ -491,23 +491,25 @@ def fam_pideeponet(item, res, viol, calls):
     Cn, S = tp.conditions, tp.samplers
     for od in (1, 2):
         for F in (1, 3):
-            for sig in (["u", "x", "e", "f"], ["f", "e", "x", "u"], ["u", "x"]):
+            for sig in (["u", "x", "e", "f"], ["f", "e", "x", "u"], ["u", "x"], ["u", "x", "e=None"], ["x", "u", "f", "e=None"]):
                 cfg = "pideeponet|out=%d|functions=%d|signature=%s" % (od, F, sig)
                 res["states"].append(cfg)
                 rec, log = [], []
-                terms = "u" + (" - e" if "e" in sig else "") + (" + 0.2*f" if "f" in sig else "") + " + 0.1*x"
-                src = "def residual(%s):\n    _REC.append({%s})\n    return %s\n" % (", ".join(sig), ", ".join("'%s': %s" % (a, a) for a in sig), terms)
+                names = [s_.split("=")[0] for s_ in sig]
+                has_e = "e" in names
+                terms = "u" + (" - e" if has_e else "") + (" + 0.2*f" if "f" in sig else "") + " + 0.1*x"
+                src = "def residual(%s):\n    _REC.append({%s})\n    return %s\n" % (", ".join(sig), ", ".join("'%s': %s" % (a, a) for a in names), terms)
                 env = {"_REC": rec}
                 exec(src, env)
-                net, fs, dsamp = _deeponet(1, od)
-                fset = CustomFunctionSet(fs, S.GridSampler(tp.domains.Interval(Space({"k": 1}), 0, 1), F), lambda k, t: torch.sin(3 * k * t) + k)
+                # when the residual uses the input functions themselves (e), they are evaluated at the trunk points: the
+                # function space then lives on the trunk variable x
+                net, fs, dsamp = _deeponet(1, od, fvar="x" if has_e else "t")
+                fn_k = (lambda k, x: torch.sin(3 * k * x) + k) if has_e else (lambda k, t: torch.sin(3 * k * t) + k)
+                fset = CustomFunctionSet(fs, S.GridSampler(tp.domains.Interval(Space({"k": 1}), 0, 1), F), fn_k)
                 # the function set lives on t, the trunk on x: evaluate the functions at the trunk points through variable t
                 smp = record_sampler(S.GridSampler(tp.domains.Interval(Space({"x": 1}), 0.1, 0.9), 5), log)
                 try:
                     cond = Cn.PIDeepONetCondition(net, fset, smp, env["residual"], data_functions=({"f": lambda x: x ** 2} if "f" in sig else {}))
-                    if "e" in sig:
-                        res["rejected"] += 1     # evaluating the function set at trunk points needs matching variable names; not exercised
-                        continue
                     loss = float(cond(iteration=0))
                 except Exception as e:
                     viol("C04|error|%s|pideeponet" % type(e).__name__, "%s raised %s: %s" % (cfg, type(e).__name__, str(e)[:100]))
@@ -523,7 +525,12 @@ def fam_pideeponet(item, res, viol, calls):
                 ok = ok and r["x"].shape == (F, J, 1) and torch.equal(r["x"].detach(), xs.unsqueeze(0).repeat(F, 1, 1))
                 if "f" in sig:
                     ok = ok and torch.allclose(r["f"].detach(), (xs ** 2).unsqueeze(0).repeat(F, 1, 1))
-                rv = (exp_u + (0.2 * (xs ** 2).unsqueeze(0) if "f" in sig else 0.0) + 0.1 * xs.unsqueeze(0)).double()
+                e_exp = 0.0
+                if has_e:
+                    ks = S.GridSampler(tp.domains.Interval(Space({"k": 1}), 0, 1), F).sample_points().as_tensor.reshape(F, 1, 1)
+                    e_exp = torch.sin(3 * ks * xs.reshape(1, J, 1)) + ks          # f_k at the trunk points, (F, J, 1)
+                    ok = ok and isinstance(r["e"], torch.Tensor) and tuple(r["e"].shape) == (F, J, 1) and torch.allclose(r["e"].detach(), e_exp, atol=1e-6)
+                rv = (exp_u - e_exp + (0.2 * (xs ** 2).unsqueeze(0) if "f" in sig else 0.0) + 0.1 * xs.unsqueeze(0)).double()
                 exp = float((rv ** 2).sum(dim=1).mean()) if False else float(torch.mean(torch.sum(rv ** 2, dim=1)))
                 if not ok:
                     viol("C04|pideeponet-arguments", "%s: residual arguments are not (functions x locations) blocks of the sampled rows" % cfg)
